@@ -21,11 +21,21 @@
    (Server/KeepAlive.v): a server with options.WithKeepAlive is a table of C18's
    single-connection machines, one per connection; non-interference between the
    connections for all histories, tied to the code by runs of real udp and tcp
-   servers with several peers on a virtual clock (KaRun cases). *)
+   servers with several peers on a virtual clock (KaRun cases).
+   Round 3: the KEYS of the two tables.  Peer table: addresses at the byte level
+   (Server/Addr.v: net.IP as a byte slice, To4 / Equal / IsUnspecified /
+   IsMulticast / String, getConnKey on them); the key is the same for the 4-byte
+   and the 16-byte representation of an IPv4 address, determines the remote
+   address, and Model.v's abstract key is equal exactly when the concrete keys
+   are.  Discovery table: keyed by Token.Hash (Server/TokenKey.v); it refines
+   the token-keyed table of Model.v on every history whose tokens the key
+   function tells apart, and CRC-64 tells apart all tokens that differ in the
+   number of zero bytes in front of a common rest. *)
 From Coq Require Import ZArith List Bool.
 From GoCoap Require Import Base.Bytes Dedup.Model Server.Model Server.Proofs Server.AcceptProofs.
 From GoCoap Require Monitor.Model Monitor.Spec Monitor.Proofs.
 From GoCoap Require Import Server.KeepAlive Server.KeepAliveProofs.
+From GoCoap Require Import Server.Addr Server.AddrProofs Server.TokenKey Server.TokenKeyProofs.
 Import ListNotations.
 Open Scope Z_scope.
 
@@ -377,3 +387,177 @@ Example C10_keepalive_instance :
   /\ kproj 0%nat (snd (krun contrast_cfg [] [KOpen 0%nat 0; KSweep 11 []; KSweep 12 []]))
   = [(Monitor.Model.Tick 11 true, [Monitor.Model.Ping 1]); (Monitor.Model.Tick 12 true, [Monitor.Model.Cancel 1; Monitor.Model.Close])].
 Proof. vm_compute. split; reflexivity. Qed.
+
+(* ---- round 3a: the key of the peer table on addresses as the code holds them (Server/Addr.v) ----
+   "messages from one remote address are handled by one logical connection per (remote, local) address pair".
+   A net.IP is a byte slice and an IPv4 address has two representations (4 bytes from the kernel, 16 bytes
+   ::ffff:a.b.c.d from net.ResolveUDPAddr / net.ParseIP / net.IPv4).  [key_c] is getConnKey on such addresses:
+   UDPAddr.String of the remote address and of the normalised local address; valid = the IP has 0, 4 or 16 bytes.
+
+   FULL statement (not proved): the real server finds the same connection whichever representation a look-up uses.
+   Proved for the byte-level transcription of net.IP's To4/Equal/IsUnspecified/IsMulticast/String and getConnKey,
+   the TEXT String() produces being represented by what it is computed from (distinct byte strings are taken to
+   print differently); tied to the code by the KeyRep cases (getConnKey through the verif hook on addresses in both
+   representations) and the RepRun cases (live server, datagrams from AF_INET sockets, NewConn with resolved
+   addresses, requests of the server over the connection NewConn returns). *)
+
+(* the key is the same whichever of the two representations the remote address, the local address or both come in *)
+Theorem C10_key_independent_of_ip_representation : forall pr pl portr zr portl zl,
+  length pr = 4%nat -> bytes_ok pr = true -> length pl = 4%nat -> bytes_ok pl = true ->
+  let r4 := NA pr portr zr in let r16 := NA (v4_as_16 pr) portr zr in
+  let l4 := NA pl portl zl in let l16 := NA (v4_as_16 pl) portl zl in
+  key_c r16 l4 = key_c r4 l4 /\ key_c r4 l16 = key_c r4 l4 /\ key_c r16 l16 = key_c r4 l4.
+Proof. exact key_representation_independent. Qed.
+Print Assumptions C10_key_independent_of_ip_representation.
+
+(* two peers never share a key: the key determines the remote address (IP up to representation, port, zone) *)
+Theorem C10_key_determines_remote_address : forall r1 l1 r2 l2, valid_addr r1 = true -> valid_addr r2 = true ->
+  key_c r1 l1 = key_c r2 l2 ->
+  canon (n_ip r1) = canon (n_ip r2) /\ n_port r1 = n_port r2 /\ n_zone r1 = n_zone r2.
+Proof. exact key_determines_remote. Qed.
+Print Assumptions C10_key_determines_remote_address.
+
+(* the abstract key of Model.v (on which one-connection-per-key, in-order hand-off, non-interference are proved)
+   is equal exactly when the keys getConnKey builds from the concrete addresses are; the normalisation and the
+   wildcard helpers commute with the abstraction *)
+Theorem C10_key_abstraction_faithful : forall r1 l1 r2 l2,
+  valid_addr r1 = true -> valid_addr l1 = true -> valid_addr r2 = true -> valid_addr l2 = true ->
+  (conn_key (abs_addr r1) (abs_addr l1) = conn_key (abs_addr r2) (abs_addr l2) <-> key_c r1 l1 = key_c r2 l2).
+Proof. exact key_abs_faithful. Qed.
+Print Assumptions C10_key_abstraction_faithful.
+
+Theorem C10_key_helpers_commute_with_abstraction : forall l, valid_addr l = true ->
+  abs_addr (norm_local_c l) = norm_local (abs_addr l) /\
+  can_fallback (abs_addr l) = can_fallback_c l /\
+  abs_addr (to_wildcard_c l) = to_wildcard (abs_addr l).
+Proof. intros l H. split; [exact (norm_local_abs l H)|split; [exact (can_fallback_abs l H)|exact (to_wildcard_abs l)]]. Qed.
+Print Assumptions C10_key_helpers_commute_with_abstraction.
+
+(* hence a look-up -- a datagram read from the socket, Server.NewConn -- with the 16-byte form of a peer's address
+   is THE SAME EVENT of the peer table as the look-up with the 4-byte form: same connection found or created, same
+   state afterwards, for every state of the table *)
+Section LookupRepresentation.
+  Variables pstate datagram pout : Type.
+  Variable peer_init : Z -> pstate.
+  Variable peer_step : mhtab -> pstate -> datagram -> presult pstate pout.
+  Variable recv_trunc : datagram -> datagram.
+
+  Theorem C10_lookup_independent_of_ip_representation_partial : forall s pr port z la lst dst d,
+    length pr = 4%nat -> bytes_ok pr = true ->
+    step pstate datagram pout peer_init peer_step recv_trunc s (ENewConn (abs_addr (NA (v4_as_16 pr) port z)) la lst) =
+    step pstate datagram pout peer_init peer_step recv_trunc s (ENewConn (abs_addr (NA pr port z)) la lst) /\
+    step pstate datagram pout peer_init peer_step recv_trunc s (EDgram (abs_addr (NA (v4_as_16 pr) port z)) lst dst d) =
+    step pstate datagram pout peer_init peer_step recv_trunc s (EDgram (abs_addr (NA pr port z)) lst dst d).
+  Proof.
+    intros s pr port z la lst dst d L B.
+    assert (E : abs_addr (NA (v4_as_16 pr) port z) = abs_addr (NA pr port z)).
+    { destruct (valid_v4 pr L B) as [V4 V16]. destruct (canon_v4 pr L) as [C4 C16].
+      unfold abs_addr. cbn [n_ip n_port n_zone]. f_equal. apply abs_ip_iff_canon; congruence. }
+    rewrite E. split; reflexivity.
+  Qed.
+End LookupRepresentation.
+Print Assumptions C10_lookup_independent_of_ip_representation_partial.
+
+(* contrast (NOT the code): a key made of the raw bytes of the two addresses gives ONE address pair TWO keys *)
+Theorem C10_raw_byte_key_would_split_a_peer : forall p port z l, length p = 4%nat ->
+  raw_key (NA (v4_as_16 p) port z) l <> raw_key (NA p port z) l.
+Proof. exact raw_key_splits_a_peer. Qed.
+Print Assumptions C10_raw_byte_key_would_split_a_peer.
+
+(* non-vacuity: 127.0.0.1:5000 sends a request to a server on 127.0.0.1:5683 (addresses from the socket: 4 bytes);
+   the application then asks for the connection of net.ResolveUDPAddr("127.0.0.1:5000") (16 bytes), pinning the
+   local address in its 16-byte form as well: connection 0, the one that served the datagram; one OnNewConn *)
+Example C10_representation_instance :
+  let l4 := NA [127; 0; 0; 1] 5683 0 in let l16 := NA (v4_as_16 [127; 0; 0; 1]) 5683 0 in
+  let r4 := NA [127; 0; 0; 1] 5000 0 in let r16 := NA (v4_as_16 [127; 0; 0; 1]) 5000 0 in
+  match cserver_run 65536 (init_state 0)
+          [EDgram (abs_addr r4) (abs_addr l4) None [64; 1; 0; 7; 177; 97];
+           ENewConn (abs_addr r16) (Some (abs_addr l16)) (abs_addr l4)] with
+  | Some (s, o) =>
+      length (filter (fun x => match x with SNew _ _ => true | _ => false end) o) = 1%nat /\
+      In (SConn (abs_addr r4) 0) o /\ key_c r16 l16 = key_c r4 l4 /\ raw_key r16 l16 <> raw_key r4 l4
+  | None => False
+  end.
+Proof. vm_compute. repeat split; auto 10. intro H. discriminate H. Qed.
+
+(* ---- round 3b: the key of the discovery table (Server/TokenKey.v) ----
+   "responses to a discovery request are delivered only to the receiver registered for their token".  The code
+   keeps the table under Token.Hash() of the token ([hrun hash]: LoadOrStore / LoadAndDelete / Load by key); Model.v
+   keeps it under the token ([trun], the discovery branches of Model.step and the look-up of cstep).
+
+   FULL statement (false of the code, finding F18 of C03/C08): the key-table is the token-table for ALL histories.
+   CRC-64 maps 2^64+... tokens of up to 8 bytes into 2^64 keys, so tokens of different lengths can collide.
+   Proved: (i) for every key function, on every history whose tokens it tells apart; (ii) with no hypothesis, a
+   message reaches a receiver only through a request registered under the key of its token; (iii) for CRC-64, the
+   key function of the code: tokens that differ in the number of zero bytes in front of a common rest -- 12 34 /
+   00 12 34 / 00 .. 00 12 34 -- always have different keys, so on histories over such tokens the code's table IS the
+   token table.  Tied to the code by the TokKey cases (Token.Hash of tokens = crc64) and the disctok runs. *)
+
+(* (i) for every key function and ALL histories whose tokens it tells apart: same refusals, same deliveries, and the
+   key-table stays the image of the token-table *)
+Theorem C10_discovery_key_table_partial : forall hash evs, told_apart hash (map dev_tok evs) ->
+  hrun hash [] evs = (hkeys hash (fst (trun [] evs)), snd (trun [] evs)).
+Proof. exact hrun_refines_init. Qed.
+Print Assumptions C10_discovery_key_table_partial.
+
+(* ... for the table of the server model: after any history of the server the key-table run on the history's
+   discovery events is the image of the model's table *)
+Theorem C10_discovery_model_table_is_key_table_partial :
+  forall (pstate datagram pout : Type) (peer_init : Z -> pstate)
+         (peer_step : mhtab -> pstate -> datagram -> presult pstate pout) (recv_trunc : datagram -> datagram)
+         (hash : list Z -> Z) (evs : list (ev datagram)) g s o,
+  run pstate datagram pout peer_init peer_step recv_trunc (init_state g) evs = Some (s, o) ->
+  told_apart hash (map dev_tok (flat_map dev_of evs)) ->
+  fst (hrun hash [] (flat_map dev_of evs)) = hkeys hash (mh s).
+Proof. exact model_table_as_keys. Qed.
+Print Assumptions C10_discovery_model_table_is_key_table_partial.
+
+(* (ii) whatever the key function: receiver r gets a message only if a request of the history registered r under the
+   key of the message's token *)
+Theorem C10_discovery_delivery_by_key : forall hash evs r tok,
+  In (DoDeliver r tok) (snd (hrun hash [] evs)) ->
+  exists tok', In (DvStart tok' r) evs /\ hash tok' = hash tok.
+Proof.
+  intros hash evs r tok H. apply (delivery_by_key hash evs evs []); [apply incl_refl|intros k r0 []|exact H].
+Qed.
+Print Assumptions C10_discovery_delivery_by_key.
+
+(* (iii) Token.Hash = CRC-64/ISO: for every rest t, the tokens 0^i t, i = 0..8, have pairwise different keys *)
+Theorem C10_crc64_separates_zero_padded_tokens : forall t i j, bytes_ok t = true -> (i <= 8)%nat -> (j <= 8)%nat ->
+  TokenKey.crc64 (repeat 0 i ++ t) = TokenKey.crc64 (repeat 0 j ++ t) -> i = j.
+Proof. exact crc64_zero_padding_apart. Qed.
+Print Assumptions C10_crc64_separates_zero_padded_tokens.
+
+(* a request in progress with token 0^i t; a message with token 0^j t is handed to its receiver iff i = j, else to
+   the application *)
+Theorem C10_discovery_zero_padded_response : forall t rcv i j, bytes_ok t = true -> (i <= 8)%nat -> (j <= 8)%nat ->
+  snd (hrun TokenKey.crc64 [] [DvStart (repeat 0 i ++ t) rcv; DvResp (repeat 0 j ++ t)]) =
+  [if Nat.eqb i j then DoDeliver rcv (repeat 0 j ++ t) else DoApp (repeat 0 j ++ t)].
+Proof. exact crc64_zero_padded_response. Qed.
+Print Assumptions C10_discovery_zero_padded_response.
+
+(* for ALL histories over the tokens 0^i t: the code's table is the token table *)
+Theorem C10_discovery_zero_padded_histories : forall t evs, bytes_ok t = true ->
+  (forall e, In e evs -> exists i, (i <= 8)%nat /\ dev_tok e = repeat 0 i ++ t) ->
+  hrun TokenKey.crc64 [] evs = (hkeys TokenKey.crc64 (fst (trun [] evs)), snd (trun [] evs)).
+Proof. exact crc64_zero_padded_histories. Qed.
+Print Assumptions C10_discovery_zero_padded_histories.
+
+(* contrast (NOT the code): with the token bytes packed big-endian into the key the length of the token is lost;
+   a message whose token is the registered one with a zero byte in front is handed to that request's receiver,
+   where the token table hands it to the application *)
+Theorem C10_packed_token_key_would_misdeliver : forall t rcv, blen t < 8 ->
+  0 :: t <> t /\
+  snd (hrun packed_key [] [DvStart t rcv; DvResp (0 :: t)]) = [DoDeliver rcv (0 :: t)] /\
+  snd (trun [] [DvStart t rcv; DvResp (0 :: t)]) = [DoApp (0 :: t)].
+Proof. exact packed_key_misdelivers. Qed.
+Print Assumptions C10_packed_token_key_would_misdeliver.
+
+(* non-vacuity: the tokens 12 34, 00 12 34 and 00 00 00 00 00 00 12 34 with the code's key function *)
+Example C10_token_key_instance :
+  snd (hrun TokenKey.crc64 [] [DvStart [18; 52] 1; DvResp [0; 18; 52]; DvResp [0; 0; 0; 0; 0; 0; 18; 52]; DvResp [18; 52];
+                               DvStart [0; 18; 52] 2; DvResp [0; 18; 52]; DvEnd [18; 52]; DvResp [18; 52]])
+  = [DoApp [0; 18; 52]; DoApp [0; 0; 0; 0; 0; 0; 18; 52]; DoDeliver 1 [18; 52]; DoDeliver 2 [0; 18; 52]; DoApp [18; 52]]
+  /\ told_apart_b TokenKey.crc64 [[18; 52]; [0; 18; 52]; [0; 0; 0; 0; 0; 0; 18; 52]] = true
+  /\ told_apart_b packed_key [[18; 52]; [0; 18; 52]] = false.
+Proof. vm_compute. repeat split; reflexivity. Qed.
